@@ -353,6 +353,7 @@ void adapter_exec(Ev *ev)
         for (int i = 0; i < na; i++) total += (size_t)A[i].size;
         RegisterAtom *snap = malloc(total * sizeof(RegisterAtom) + 2);
         for (long long x = 0; x < 65536; x++) {
+            if ((x & 0xff) == 0) driver_kick();
             size_t o = 0;
             for (int i = 0; i < na; i++) { memcpy(snap + o, store[i], (size_t)A[i].size * 2); o += (size_t)A[i].size; }
             long long w[4] = { 0, 0, 0, x };
